@@ -1,2 +1,8 @@
-import Adsg.Proofs.Closure
-#print axioms Adsg.mem_closure_iff_reach
+import Adsg.Props.C06
+#print axioms Adsg.C06.arch_conflict_free
+#print axioms Adsg.C06.forced_conflict_never_feasible
+#print axioms Adsg.C06.conflicting_option_not_viable
+#print axioms Adsg.C06.mem_viable_iff
+#print axioms Adsg.C06.needed_option_viable
+#print axioms Adsg.C06.infeasible_iff_all_conflict
+#print axioms Adsg.C06.admissible_row_enumerated
